@@ -17,6 +17,7 @@ with the end of the handshake), C15 (handshake timeout) and C20 (no plaintext re
 import asyncio
 import os
 import random
+import ssl
 import sys
 
 sys.path.insert(0, os.path.dirname(os.path.dirname(os.path.abspath(__file__))))
@@ -357,9 +358,19 @@ def b2(pid, rep, rnd, own, count):
                 h._feed(piece)
             h._pull()
             # flight 2 + all application records generated together, then cut at random byte offsets
-            blob = h._gen(2)
-            for i in range(3, len(items) + 1):
-                blob += h._gen(i)
+            try:
+                blob = h._gen(2)
+                for i in range(3, len(items) + 1):
+                    blob += h._gen(i)
+            except (ssl.SSLError, OSError) as e:
+                # the client could not go on: the server did not answer the first flight (however it was cut into reads)
+                n += 1
+                bad = {"SegIndepTls", "PlainComplete", "ByteExact", "HsTimerWhileHandshaking"} & own
+                if bad:
+                    rep.violation({"formula": sorted(bad)[0], "random": True, "handshake": True},
+                                  "%s falsified: the ClientHello was delivered completely (cut into several reads) and the server did not continue the handshake (%r; connection %s)" % (
+                                      sorted(bad), e, "closing" if h.tr.closing else "open"), None)
+                continue
             for piece in cut(blob, rnd):
                 if h.tr.closing:
                     break
@@ -387,7 +398,10 @@ def cut(data, rnd):
     if not data:
         return []
     k = rnd.choice([0, 0, 1, 2, 5, 20])
-    pts = sorted(set(rnd.randint(1, len(data) - 1) for _ in range(k))) if len(data) > 1 else []
+    pts = set(rnd.randint(1, len(data) - 1) for _ in range(k)) if len(data) > 1 else set()
+    if len(data) > 6 and rnd.random() < 0.4:
+        pts.add(rnd.choice([1, 2, 3, 4, 5, len(data) - 1, len(data) - 2]))        # cuts inside the first record header / before the last byte
+    pts = sorted(pts)
     out = []
     prev = 0
     for p in pts + [len(data)]:
